@@ -1,7 +1,7 @@
 (* C01 — property theorems only. uval / sval read the two words as an unsigned / two's-complement 128-bit integer;
    wf says both words are in [0, 2^64). smod reduces into [-2^127, 2^127). Every statement is for all well-formed operands. *)
 From Coq Require Import ZArith List Bool.
-From Verif Require Import common.Word64 common.Word64Facts C01.Model C01.ProofsArith C01.ProofsBits C01.ProofsShift C01.ProofsInt C01.ProofsDiv C01.ProofsDiv2.
+From Verif Require Import common.Word64 common.Word64Facts C01.Model C01.ProofsArith C01.ProofsBits C01.ProofsShift C01.ProofsInt C01.ProofsDiv C01.ProofsDiv2 C01.ProofsDiv3.
 Open Scope Z_scope.
 
 (* ---- Uint128 arithmetic = Z mod 2^128 ---- *)
@@ -173,6 +173,28 @@ Theorem C01_DivMod : forall u n, wf u -> wf n ->
                  wf q /\ wf r /\ uval q = uval u / uval n /\ uval r = uval u mod uval n /\ uval q * uval n + uval r = uval u /\ uval r < uval n).
 Proof. exact DivMod_spec. Qed.
 Print Assumptions C01_DivMod.
+
+(* the variants with a 64-bit divisor *)
+Theorem C01_DivMod64 : forall u n, wf u -> w64 n ->
+  (n = 0 -> DivMod64 u n = DivZero /\ Div64 u n = DivZero /\ Mod64 u n = DivZero) /\
+  (0 < n -> exists q r, DivMod64 u n = Ok (q, r) /\ Div64 u n = Ok q /\ Mod64 u n = Ok r /\
+            wf q /\ wf r /\ uval q = uval u / n /\ uval r = uval u mod n /\ uval q * n + uval r = uval u /\ uval r < n).
+Proof. exact DivMod64_spec. Qed.
+Print Assumptions C01_DivMod64.
+(* Int128: quotient truncated toward zero (reduced into the two's-complement range: only MinInt128 / -1 is affected), remainder with
+   the dividend's sign; division by zero reported *)
+Theorem C01_IDivMod : forall i n, wf i -> wf n ->
+  (sval n = 0 -> IDivMod i n = DivZero /\ IDiv i n = DivZero /\ IMod i n = DivZero) /\
+  (sval n <> 0 -> exists q r, IDivMod i n = Ok (q, r) /\ IDiv i n = Ok q /\ IMod i n = Ok r /\ wf q /\ wf r /\
+                  sval q = smod (Z.quot (sval i) (sval n)) /\ sval r = Z.rem (sval i) (sval n)).
+Proof. exact IDivMod_spec. Qed.
+Print Assumptions C01_IDivMod.
+Theorem C01_IDivMod64 : forall i n, wf i -> int64 n ->
+  (n = 0 -> IDivMod64 i n = DivZero /\ IDiv64 i n = DivZero /\ IMod64 i n = DivZero) /\
+  (n <> 0 -> exists q r, IDivMod64 i n = Ok (q, r) /\ IDiv64 i n = Ok q /\ IMod64 i n = Ok r /\ wf q /\ wf r /\
+             sval q = smod (Z.quot (sval i) n) /\ sval r = Z.rem (sval i) n).
+Proof. exact IDivMod64_spec. Qed.
+Print Assumptions C01_IDivMod64.
 
 (* non-vacuity and regression *)
 Example C01_ex_onescount : OnesCount (mk 3 7) = 5. Proof. reflexivity. Qed.
